@@ -6,6 +6,19 @@ ID is run against that tree (VERIF_REPO): /repo itself is never touched, so this
 The outcome is recorded in /verif/seeded/<name>/result.json (result-<patch>.json for a named patch)."""
 import json, os, subprocess, sys, time, tempfile, shutil
 
+
+
+def say(*a):
+    # (the output is often piped through head: a closed pipe must not stop the clean-up)
+    try:
+        print(*a, flush=True)
+    except BrokenPipeError:
+        try:
+            sys.stdout = open(os.devnull, 'w')
+        except OSError:
+            pass
+
+
 arg = sys.argv[1]
 name, _, patch = arg.partition(':')
 patch = patch or 'patch.diff'
@@ -34,13 +47,13 @@ try:
         viol = [l for l in lines if l.startswith('VIOLATION')]
         why = [l for l in lines if l.startswith('#   ')][:3]
         results[pid] = {'exit': r.returncode, 'detected': bool(r.returncode == 1 and viol), 'violations': len(viol), 'first': [w[4:300] for w in why], 'wall_s': round(time.time() - t, 1)}
-        print(name + (':' + patch if patch != 'patch.diff' else ''), pid, 'DETECTED' if results[pid]['detected'] else 'MISSED(rc=%d)' % r.returncode, '%.0fs' % (time.time() - t))
+        say(name + (':' + patch if patch != 'patch.diff' else ''), pid, 'DETECTED' if results[pid]['detected'] else 'MISSED(rc=%d)' % r.returncode, '%.0fs' % (time.time() - t))
         for w in why[:2]:
-            print('   ', w[:260])
+            say('   ', w[:260])
         if r.returncode == 2:
             for l in lines:
                 if l.startswith('HARNESS'):
-                    print('   ', l[:260])
+                    say('   ', l[:260])
         # found-* replay files of a seeded run are not findings
         for l in viol:
             f = l.split('replay=')[-1].strip()
